@@ -41,16 +41,19 @@ def gen_case(rng, idx):
     case = {"idx": idx, "kind": kind, "scalar": bool(n == 1 and rng.random() < 0.5)}
     rated = float(rng.choice([500.0, 1000.0, 3000.0, float(np.round(rng.uniform(200, 6000), 0))]))
     if kind in ("engine", "genset", "geared"):
-        eng = plants.gen_engine_spec(rng, rated)
-        lo, hi = curve_range(eng["bsfc"])
-        if eng.get("dual"):
-            l2, h2 = curve_range(eng["dual"]["bspfc"])
-            lo, hi = max(lo, l2), min(hi, h2)
-        for e in eng.get("emissions", []):
-            l2, h2 = curve_range(e["points"])
-            lo, hi = max(lo, l2), min(hi, h2)
-        if lo > hi:
-            lo, hi = 0.3, 0.9
+        for _ in range(200):
+            eng = plants.gen_engine_spec(rng, rated)
+            lo, hi = curve_range(eng["bsfc"])
+            if eng.get("dual"):
+                l2, h2 = curve_range(eng["dual"]["bspfc"])
+                lo, hi = max(lo, l2), min(hi, h2)
+            for e in eng.get("emissions", []):
+                if len(e["points"]) > 1:          # (a curve of one point is a constant: it covers every load)
+                    l2, h2 = curve_range(e["points"])
+                    lo, hi = max(lo, l2), min(hi, h2)
+            if lo <= hi:
+                break       # (curves that cover no common load range leave no power "within the range covered by the curves": drawn again -
+            # the old fallback to 30-90 % load put the powers outside the consumption curve, where PCHIP extrapolates below zero)
         case["engine"] = eng
         case["rated"] = rated
         if kind == "genset":
